@@ -310,3 +310,20 @@ proof fn lemma_held_skip(order: Seq<u16>, k: int, i: int, ko: Seq<HashMap<OsCode
     proof {
         assert(layer_pick(ko, dl, code, cur, unsh, unmod) is None);
     }
+
+// the wrapper Kanata::handle_repeat, cut whole: handle_repeat_actual (under contract above - the
+// caller is checked against that contract), then the scratch list of held keys is emptied again, as
+// handle_time_ticks expects it between ticks
+//@ item src/kanata/key_repeat.rs fn handle_repeat in `Kanata`
+//@@ wrap impl Kanata
+//@@ ret r
+//@@ spec
+    requires
+        forall|i: int| 0 <= i < old(self).layout.verif_inner.order().len() ==> (#[trigger] old(self).layout.verif_inner.order()[i] as int) < old(self).key_outputs@.len(),
+        old(self).layout.verif_inner.default_layer < old(self).key_outputs@.len(),
+    ensures
+        final(self).cur_keys@.len() == 0,
+        final(self).key_outputs@ == old(self).key_outputs@,
+        // at most one event is written, and only a Repeat
+        final(self).kbd_out.verif_log@ == old(self).kbd_out.verif_log@
+            || exists|o: OsCode| final(self).kbd_out.verif_log@ == old(self).kbd_out.verif_log@.push((o, KeyValue::Repeat)),
